@@ -8,6 +8,8 @@ import (
 	"go/types"
 	"sort"
 	"strings"
+
+	"golang.org/x/tools/go/ssa"
 )
 
 func init() { register("C16", checkC16) }
@@ -141,7 +143,7 @@ func checkC16(w *World, r *Report) {
 		r.Check(!isFloat && !parsesFloat, "R16.3", "decimal64 range representation", fd.Pos(), "exact (scaled integer) comparison", "decimal64 range boundaries (Drb) and the value under test are float64: 18-19 digit values next to a boundary round to the same double, so a value one unit outside a range is accepted")
 	})
 
-	r.Rule("R16.4", "patterns are implicitly anchored: the compiled expression is ^( pattern )$", 1)
+	r.Rule("R16.4", "patterns are implicitly anchored: the compiled expression is ^( pattern )$ on every path", 2)
 	r.guard("R16.4", func() {
 		pp := w.Pkg("parse")
 		m := w.Method("parse", "PatternArg", "Parse")
@@ -178,6 +180,29 @@ func checkC16(w *World, r *Report) {
 			return true
 		})
 		r.Check(ok, "R16.4", "PatternArg.Parse anchoring", fd.Pos(), "\"^(\" + pattern + \")$\"", "the pattern is not wrapped as ^(…)$: a value that merely contains a match, or matches one alternative of an unparenthesised '|', is accepted")
+		// on every path: the value handed to regexp.Compile is itself the wrapped string, not a join of a wrapped and an unwrapped one
+		sf := w.SSAFunc(m)
+		every := false
+		var cpos token.Pos = fd.Pos()
+		for _, b := range sf.Blocks {
+			for _, in := range b.Instrs {
+				c, isC := in.(*ssa.Call)
+				if !isC || c.Call.StaticCallee() == nil || c.Call.StaticCallee().String() != "regexp.Compile" {
+					continue
+				}
+				cpos = c.Pos()
+				if outer, ok := c.Call.Args[0].(*ssa.BinOp); ok && outer.Op == token.ADD {
+					if k, ok := outer.Y.(*ssa.Const); ok && k.Value != nil && k.Value.Kind() == constant.String && constant.StringVal(k.Value) == ")$" {
+						if inner, ok := outer.X.(*ssa.BinOp); ok && inner.Op == token.ADD {
+							if k2, ok := inner.X.(*ssa.Const); ok && k2.Value != nil && k2.Value.Kind() == constant.String && constant.StringVal(k2.Value) == "^(" {
+								every = true
+							}
+						}
+					}
+				}
+			}
+		}
+		r.Check(every, "R16.4", "PatternArg.Parse anchors on every path", cpos, "regexp.Compile(\"^(\" + … + \")$\") unconditionally", "on some path the expression handed to regexp.Compile is not the ^(…)$ wrapping (e.g. patterns that already carry anchors are left alone): \"^a|b$\" then accepts any value that starts with a or ends with b")
 	})
 
 	r.Rule("R16.5", "membership shapes: boolean accepts exactly true|false; empty rejects any non-empty value; enumeration and identityref accept iff some declared name equals the value; union accepts iff some member accepts; a range/length part accepts iff start ≤ v ≤ end", 9)
